@@ -318,20 +318,67 @@ def run_hop_http(case, model):
     from slimta.relay.http import HttpRelay
     cfg = case['cfg']
     q = RecQueue(cfg['queue'])
-    edge = WsgiEdge(q, hostname='edge.example')
+    seen = []
+
+    class TappedEdge(WsgiEdge):
+        # what the WSGI server hands the edge for each request (the header values Model/HttpHop.lean's environGet stands for) and the
+        # envelope the edge makes of it
+        def _get_envelope(self, environ):
+            rec = dict((k, environ.get(k)) for k in ('CONTENT_LENGTH', 'HTTP_X_EHLO', 'HTTP_X_ENVELOPE_SENDER', 'HTTP_X_ENVELOPE_RECIPIENT'))
+            env = WsgiEdge._get_envelope(self, environ)
+            h, b = env.flatten()
+            rec.update(ehlo=self._get_ehlo(environ), sender=env.sender, rcpts=list(env.recipients), data=h + b)
+            seen.append(rec)
+            return env
+    edge = TappedEdge(q, hostname='edge.example')
     server = edge.build_server(('127.0.0.1', 0))
     server.log = None
     server.start()
     relay = HttpRelay('http://127.0.0.1:%d/' % server.server_port, ehlo_as='relay.example', timeout=5, idle_timeout=0.5)
     results = []
+    sent = []
     try:
         for m in case['msgs']:
-            results.append(attempt(relay, make_env(m)))
+            env = make_env(m)
+            h, b = env.flatten()
+            sent.append({'sender': env.sender, 'rcpts': list(env.recipients), 'data': h + b})
+            results.append(attempt(relay, env))
     finally:
         server.stop()
         for c in list(relay.pool):
             c.kill(block=False)
+    q.http_mismatch = compare_http_hop(model, sent, seen)
     return q, results
+
+
+def compare_http_hop(model, sent, seen):
+    """Model/HttpHop.lean against the real hop, request by request: the header values as the WSGI server presented them to the real
+    edge (Content-Length, X-Ehlo, X-Envelope-Sender, the X-Envelope-Recipient values joined by the server) = the model's environ of the
+    model's request; what the real edge made of them = the model's edgeEnvelope. (A request the relay had to send twice — the second
+    one on a kept-alive connection is answered ResponseNotReady and retried on a new connection — is seen twice.)"""
+    def hx_(b):
+        return b.hex() or '-'
+    want = []
+    for s in sent:
+        line = 'wire httphop %s %s %s %s' % (hx_(b'relay.example'), hx_(s['sender'].encode('utf-8')),
+                                             ','.join(hx_(r.encode('utf-8')) if r else '_' for r in s['rcpts']) or '-', hx_(s['data']))
+        want.append((line, model.ask(line)))
+    k = 0
+    for rec in seen:
+        # find the sent message this request belongs to (in order; a repeated request matches the same message again)
+        def render(rec):
+            g = lambda v: 'none' if v is None else (v.encode('latin-1').hex() or '-')
+            env = 'cl=%s ehlo=%s sender=%s rcpt=%s' % (g(rec['CONTENT_LENGTH']), g(rec['HTTP_X_EHLO']), g(rec['HTTP_X_ENVELOPE_SENDER']), g(rec['HTTP_X_ENVELOPE_RECIPIENT']))
+            out = '%s %s %s %s' % (hx_(rec['ehlo'].encode('utf-8')), hx_(rec['sender'].encode('utf-8')),
+                                   ','.join(hx_(r.encode('utf-8')) if r else '_' for r in rec['rcpts']) or '-', hx_(rec['data']))
+            return env + ' || ' + out
+        got = render(rec)
+        while k < len(want) and want[k][1] != got and k + 1 < len(want) and want[k + 1][1] == got:
+            k += 1
+        if k >= len(want) or want[k][1] != got:
+            return {'op': 'wire httphop', 'impl': got[:700], 'model': (want[min(k, len(want) - 1)][1] if want else 'nothing sent')[:700],
+                    'line': (want[min(k, len(want) - 1)][0] if want else '')[:300]}
+    return None
 
 
 def run_hop_lmtp(case, model):
@@ -656,6 +703,8 @@ def run_hop(case, model):
     elif tr == 'http':
         q, results = run_hop_http(case, model)
         compare(q.got, results)
+        if mismatch is None and q.http_mismatch is not None:
+            mismatch = q.http_mismatch
     else:
         got, results = run_hop_lmtp(case, model)
         received = []
